@@ -18,6 +18,8 @@
 package version
 
 import (
+	"sort"
+
 	"go.uber.org/atomic"
 
 	"github.com/lindb/lindb/kv/table"
@@ -194,14 +196,19 @@ func (v *version) PickL0Compaction(compactThreshold int) *Compaction {
 	for _, upInput := range levelUpInputMap {
 		levelUpInputs = append(levelUpInputs, upInput)
 	}
+	sort.Slice(levelUpInputs, func(i, j int) bool {
+		return levelUpInputs[i].GetFileNumber() < levelUpInputs[j].GetFileNumber()
+	})
 	return NewCompaction(v.fv.GetID(), 0, levelInputs, levelUpInputs)
 }
 
 // FindFiles finds all files include key from each level
 func (v *version) FindFiles(key uint32) []*FileMeta {
 	var files []*FileMeta
-	for _, level := range v.levels {
-		for _, file := range level.getFiles() {
+	// NOTE: oldest data first, a compaction moves all files of a level into the next one,
+	// so the files of a higher level are always older than the files of a lower level.
+	for i := len(v.levels) - 1; i >= 0; i-- {
+		for _, file := range v.levels[i].getFiles() {
 			if key >= file.GetMinKey() && key <= file.GetMaxKey() {
 				files = append(files, file)
 			}
